@@ -98,6 +98,10 @@ type c20world struct {
 	opIx   []int
 	rawIx  []int
 	txs    []*c20tx
+	// fresh[k] wraps the same message as txs[k].tx in a NEW bchutil.Tx whose
+	// hash has never been asked for: the goroutines' MatchTxAndUpdate calls are
+	// the first to need it (the filter computes it inside its critical section)
+	fresh []*bchutil.Tx
 	// idx[m][item] = bit numbers
 	idx [c20K][][]uint16
 }
@@ -214,6 +218,9 @@ func c20buildWorldOpt(r *vf.Rand, sameGeom, static bool) *c20world {
 	raw0 := w.items[w.rawIx[0]]
 	mk([][]byte{p2pk(pk1), p2pkh(h20)}, []*wire.OutPoint{w.ops[0]}, [][]byte{sig(raw0)})
 	mk([][]byte{p2pkh(h20), p2pk(pk2)}, []*wire.OutPoint{w.ops[1], wire.NewOutPoint(w.txs[0].tx.Hash(), 0)}, [][]byte{sig(pk2), {}})
+	for _, mt := range w.txs {
+		w.fresh = append(w.fresh, bchutil.NewTx(mt.tx.MsgTx()))
+	}
 	// bit numbers per message and item
 	for m := 0; m < c20K; m++ {
 		w.idx[m] = make([][]uint16, len(w.items))
@@ -354,7 +361,7 @@ func (w *c20world) perform(f *bloom.Filter, in c20in) (out c20out) {
 			}
 		}
 	case opMatchTx:
-		out.B = f.MatchTxAndUpdate(w.txs[in.Arg].tx)
+		out.B = f.MatchTxAndUpdate(w.fresh[in.Arg])
 	case opReload:
 		f.Reload(w.msgs[in.Arg])
 	case opUnload:
